@@ -334,6 +334,14 @@ class Engine(ExprMixin, StmtMixin, CallMixin, BuiltinMixin, EngineBase):
             conj.extend(x == y for x, y in zip(now, then) if not x.eq(y))
         return [(p, VBool(z3.And(conj) if conj else z3.BoolVal(True)))]
 
+    def sp_keypos(self, node, p):
+        """keypos(it, u): position of key u in the key sequence `it` obtained by iterating a dict."""
+        def k(q, vs):
+            seq, u = vs
+            kp = self.keypos_fn(seq)
+            return [(q, VInt(kp(*seq.arrs, *coerce(u, seq.elem).comps())))]
+        return self.bind(self.ev_list(node.args, p), k)
+
     def sp_unchanged_old(self, node, p):
         """unchanged_old('Class.field', ...): every object allocated in the old state keeps the value of the field
         (objects created since are unconstrained)."""
